@@ -359,7 +359,28 @@ class Application(MutableMapping[str | AppKey[Any], Any]):
             await self.on_cleanup.send(self)
         else:
             # If an exception occurs in startup, ensure cleanup contexts are completed.
+            await self._exit_started_contexts()
+
+    async def _exit_started_contexts(self) -> None:
+        """Exit the cleanup contexts that were entered, sub-applications first.
+
+        A sub-application is started by a handler of the parent's on_startup
+        signal, so its contexts may have been entered before startup failed.
+        """
+        errors: list[BaseException] = []
+        for subapp in reversed(self._subapps):
+            try:
+                await subapp._exit_started_contexts()
+            except (Exception, asyncio.CancelledError) as exc:
+                errors.append(exc)
+        try:
             await self._cleanup_ctx._on_cleanup(self)
+        except (Exception, asyncio.CancelledError) as exc:
+            errors.append(exc)
+        if len(errors) == 1:
+            raise errors[0]
+        if errors:
+            raise CleanupError("Multiple errors on cleanup stage", errors)
 
     def _prepare_middleware(self) -> Iterator[Middleware]:
         yield from reversed(self._middlewares)
